@@ -37,6 +37,10 @@ def output_roles(case, real):
 
 def crash_failures(ctx, prop, case, real):
     """a crash (unexpected exception) or exit status 1 on a well-formed input and a valid command line"""
+    if "error" in real and real["error"] == "template":
+        # `--rename` template that makes the ids of R1 and R2 differ: PairedEndRenamer refuses it (InvalidTemplate) - a user error
+        ctx.count("rename-template-rejected-at-run-time")
+        return True
     if "error" in real and real["error"] not in ("cmdline",):
         argv = case["argv"]
         linked = any("..." in t for t in argv)
